@@ -281,8 +281,66 @@ func runC04(r *Report, rng *rand.Rand, thorough bool) {
 			}
 		}
 	}
+	// an operation whose path begins with a parameter, values with a colon (URN, time of day, URL, date-time)
+	{
+		var scenarios []map[string]any
+		type lm struct {
+			fw       string
+			lead, id string
+		}
+		ms := map[string]lm{}
+		leads := []string{"plain", "urn:acme", "12:30", "mailto:a@b.c", "2024-02-29T10:30:00Z", "a b", "x:y:z", ":lead", "trail:"}
+		for _, fw := range Frameworks {
+			name := "par_" + fw + "_lead"
+			st := lab.Status[name]
+			if st == nil || !st.OK {
+				if st != nil {
+					r.Violate("lab_package_broken:"+name, trunc(st.GenerateError+" "+st.CompileError, 400), nil)
+				}
+				continue
+			}
+			for k, lead := range leads {
+				idv := fmt.Sprintf("id%d", k)
+				lb, _ := json.Marshal(lead)
+				ib, _ := json.Marshal(idv)
+				id := fmt.Sprintf("%s/lead/%d", name, k)
+				scenarios = append(scenarios, map[string]any{"id": id, "pkg": name, "opts": map[string]any{"short_circuit": -1, "strict_short_circuit": -1},
+					"client": map[string]any{"fn": "NewLeadparamRequest", "args": []json.RawMessage{lb, ib}, "then_serve": true}})
+				ms[id] = lm{fw, lead, idv}
+			}
+		}
+		results, err := lab.Run(scenarios)
+		if err != nil {
+			r.Violate("lab_run_failed", err.Error(), nil)
+		}
+		for _, sc := range scenarios {
+			id := sc["id"].(string)
+			res := results[id]
+			m := ms[id]
+			replay := map[string]any{"framework": m.fw, "scenario": sc, "lead": m.lead}
+			r.Count("lead/"+id, strings.Contains(m.lead, ":"))
+			r.Dist["path-begins-with-parameter"]++
+			if res == nil {
+				continue
+			}
+			var hs []LabEvent
+			for _, e := range res.Trace {
+				if e.Kind == "handler" {
+					hs = append(hs, e)
+				}
+			}
+			var gotLead, gotID string
+			if len(hs) == 1 {
+				_ = json.Unmarshal(hs[0].Data["lead"], &gotLead)
+				_ = json.Unmarshal(hs[0].Data["id"], &gotID)
+			}
+			if res.Err != "" || len(hs) != 1 || gotLead != m.lead || gotID != m.id {
+				r.Violate("roundtrip/"+m.fw+"/path/leading-parameter", fmt.Sprintf("%s /{lead}/items/{id} with lead = %q: error %q, %d handler calls, received lead = %q id = %q (path %s)", m.fw, m.lead, res.Err, len(hs), gotLead, gotID, wirePath(res)), replay)
+			}
+		}
+	}
 	r.Exhaustive = true
-	r.Rule = "one operation with three path variables declared out of path order on both levels (client fills by position, server binds by name); every cell of location x style (incl. defaulted) x explode (default/true/false) x shape (string, int32, int64, double, bool, date, date-time, uuid, array of int, array of string, flat object; JSON-content parameters) x required/optional, for each of the 7 frameworks; per cell k values from a typed generator (integer extremes, strings over ASCII letters/digits, non-ASCII letters, space, URL-reserved punctuation, minus the style's own delimiters) plus the omitted-optional case; request built by the generated client builder, served by the generated server, arguments of the recording stub compared with the supplied ones; non-trivial = value outside plain alphanumerics"
+	r.Rule = "one operation whose path begins with a parameter (values with colons: URN, time, mailto, date-time); one operation with three path variables declared out of path order on both levels (client fills by position, server binds by name); every cell of location x style (incl. defaulted) x explode (default/true/false) x shape (string, int32, int64, double, bool, date, date-time, uuid, array of int, array of string, flat object; JSON-content parameters) x required/optional, for each of the 7 frameworks; per cell k values from a typed generator (integer extremes, strings over ASCII letters/digits, non-ASCII letters, space, URL-reserved punctuation, minus the style's own delimiters) plus the omitted-optional case; request built by the generated client builder, served by the generated server, arguments of the recording stub compared with the supplied ones; non-trivial = value outside plain alphanumerics"
 }
 
 func wirePath(r *LabResult) string {
